@@ -16,6 +16,7 @@ import (
 	"runtime"
 	"sort"
 	"strings"
+	"sync/atomic"
 	"time"
 )
 
@@ -47,6 +48,7 @@ const (
 
 var kindNames = [...]string{"start", "lock", "unlock", "rlock", "runlock", "trylock", "atomic", "send", "recv", "close", "select", "sleep", "gosched", "spawn", "user", "once", "map", "timer", "end", "settle"}
 
+//go:norace
 func (k Kind) String() string {
 	if int(k) < len(kindNames) {
 		return kindNames[k]
@@ -73,6 +75,8 @@ type Actor struct {
 	Lib     bool // spawned by instrumented library code
 	Parent  int
 	wake    chan struct{}
+	flag    int32  // race mode: plain word the parked actor spins on (no happens-before edge)
+	rel     uint32 // race mode: released (atomically) whenever the actor parks or ends; acquired by the driver only
 	st      state
 	keys    []uintptr
 	kind    Kind
@@ -83,11 +87,53 @@ type Actor struct {
 	started bool
 }
 
-func (a *Actor) State() string     { return stateNames[a.st] }
-func (a *Actor) Done() bool        { return a.st == stDone }
-func (a *Actor) Blocked() bool     { return a.st == stBlocked }
-func (a *Actor) Sleeping() bool    { return a.st == stSleeping }
+//go:norace
+func (a *Actor) State() string { return stateNames[a.st] }
+
+//go:norace
+func (a *Actor) Done() bool { return a.st == stDone }
+
+//go:norace
+func (a *Actor) Blocked() bool { return a.st == stBlocked }
+
+//go:norace
+func (a *Actor) Sleeping() bool { return a.st == stSleeping }
+
+//go:norace
 func (a *Actor) PendingKind() Kind { return a.kind }
+
+// OnShutdown, when set, is called when a run is over, right before the surviving actors are released.
+// (Released actors unwind outside the scheduler's control: what the race detector says about that
+// phase is not about the library.)
+var OnShutdown func()
+
+// RaceMode is set in binaries built with -race: the token is then passed through a plain word that the
+// parked actor polls, instead of a channel. A channel hand-off would order every pair of actors for
+// the race detector and hide all races; the plain word creates no happens-before edge, so the detector
+// sees exactly the library's own synchronisation (the shims keep using the real primitives for that).
+var RaceMode bool
+
+//go:norace
+func (a *Actor) park() {
+	if RaceMode {
+		atomic.StoreUint32(&a.rel, 1)
+		for a.flag == 0 {
+			runtime.Gosched()
+		}
+		a.flag = 0
+		return
+	}
+	<-a.wake
+}
+
+//go:norace
+func (a *Actor) unpark() {
+	if RaceMode {
+		a.flag = 1
+		return
+	}
+	a.wake <- struct{}{}
+}
 
 // Escaped describes a panic that escaped an actor's top-level function.
 type Escaped struct {
@@ -188,6 +234,7 @@ type Kernel struct {
 }
 
 type pendSend struct {
+	hb    uint32
 	actor *Actor
 	val   interface{}
 	taken bool
@@ -202,6 +249,7 @@ var Jitter func()
 const fnvOff = 14695981039346656037
 const fnvPrime = 1099511628211
 
+//go:norace
 func mix(h uint64, v uint64) uint64 {
 	for i := 0; i < 8; i++ {
 		h ^= v & 0xff
@@ -211,6 +259,7 @@ func mix(h uint64, v uint64) uint64 {
 	return h
 }
 
+//go:norace
 func mixs(h uint64, s string) uint64 {
 	for i := 0; i < len(s); i++ {
 		h ^= uint64(s[i])
@@ -220,6 +269,8 @@ func mixs(h uint64, s string) uint64 {
 }
 
 // New creates a kernel. epoch is the wall-clock reading that corresponds to simulated time 0.
+//
+//go:norace
 func New(cfg Config, epoch time.Time) *Kernel {
 	if cfg.MaxSteps <= 0 {
 		cfg.MaxSteps = 20000
@@ -232,18 +283,36 @@ func New(cfg Config, epoch time.Time) *Kernel {
 }
 
 // Active reports whether a controlled run is in progress (and not shutting down).
+//
+//go:norace
 func Active() bool { return K != nil && !K.dying }
 
 // Now returns the simulated time since the start of the run.
+//
+//go:norace
 func (k *Kernel) Now() time.Duration { return k.now }
-func (k *Kernel) Steps() int         { return k.Stats.Steps }
-func (k *Kernel) Capped() bool       { return k.capped }
-func (k *Kernel) Cur() *Actor        { return k.cur }
-func (k *Kernel) Actors() []*Actor   { return k.actors }
+
+//go:norace
+func (k *Kernel) Steps() int { return k.Stats.Steps }
+
+//go:norace
+func (k *Kernel) Capped() bool { return k.capped }
+
+//go:norace
+func (k *Kernel) Cur() *Actor { return k.cur }
+
+//go:norace
+func (k *Kernel) Actors() []*Actor { return k.actors }
+
+//go:norace
 func (k *Kernel) YieldAtomics() bool { return k.cfg.YieldAtomics }
-func (k *Kernel) MapPermute() bool   { return k.cfg.MapPermute }
+
+//go:norace
+func (k *Kernel) MapPermute() bool { return k.cfg.MapPermute }
 
 // ObjID gives a small per-run id to an object key (deterministic: first-seen order).
+//
+//go:norace
 func (k *Kernel) ObjID(key uintptr) int {
 	if key == 0 {
 		return 0
@@ -257,6 +326,8 @@ func (k *Kernel) ObjID(key uintptr) int {
 }
 
 // Log records a harness-level event in the event log.
+//
+//go:norace
 func (k *Kernel) Log(s string) {
 	k.LogHash = mixs(k.LogHash, s)
 	k.LogHash = mix(k.LogHash, uint64(k.Stats.Steps))
@@ -265,6 +336,7 @@ func (k *Kernel) Log(s string) {
 	}
 }
 
+//go:norace
 func (k *Kernel) logStep(a *Actor, kind Kind, key uintptr) {
 	// object ids are address based (an address can be reused after a collection), so they appear in
 	// human-readable traces only, never in the hash that determinism checks compare
@@ -276,6 +348,8 @@ func (k *Kernel) logStep(a *Actor, kind Kind, key uintptr) {
 
 // Run executes fn as the driver actor (id 0) and returns when the run is over.
 // It must be called from a goroutine that is not an actor (inside the bubble if hooks are set).
+//
+//go:norace
 func (k *Kernel) Run(fn func()) {
 	if K != nil {
 		panic("simrt: nested run")
@@ -285,11 +359,12 @@ func (k *Kernel) Run(fn func()) {
 	k.driver = d
 	k.startActor(d, fn)
 	k.cur = d
-	d.wake <- struct{}{}
+	d.unpark()
 	<-k.done
 	K = nil
 }
 
+//go:norace
 func (k *Kernel) newActor(site string, lib bool, parent int) *Actor {
 	a := &Actor{ID: len(k.actors), Site: site, Lib: lib, Parent: parent, wake: make(chan struct{}, 1), st: stRunnable, kind: KStart, BornAt: k.Stats.Steps}
 	k.actors = append(k.actors, a)
@@ -300,9 +375,10 @@ func (k *Kernel) newActor(site string, lib bool, parent int) *Actor {
 	return a
 }
 
+//go:norace
 func (k *Kernel) startActor(a *Actor, fn func()) {
 	go func() {
-		<-a.wake
+		a.park()
 		if a.die {
 			a.st = stDone
 			k.killAck <- struct{}{}
@@ -322,6 +398,9 @@ func (k *Kernel) startActor(a *Actor, fn func()) {
 			}
 			a.st = stDone
 			a.kind = KEnd
+			if RaceMode {
+				atomic.StoreUint32(&a.rel, 1)
+			}
 			if a.die || k.dying {
 				// killed (Goexit) during shutdown
 				if a == k.driver {
@@ -344,20 +423,27 @@ func (k *Kernel) startActor(a *Actor, fn func()) {
 }
 
 // shutdown kills every surviving actor (one at a time) and ends the run. Called on the driver's goroutine.
+//
+//go:norace
 func (k *Kernel) shutdown() {
+	if OnShutdown != nil {
+		OnShutdown()
+	}
 	k.dying = true
 	for _, a := range k.actors {
 		if a == k.driver || a.st == stDone {
 			continue
 		}
 		a.die = true
-		a.wake <- struct{}{}
+		a.unpark()
 		<-k.killAck
 	}
 	close(k.done)
 }
 
 // Go starts f as a new actor. In pass-through mode it is a plain go statement.
+//
+//go:norace
 func Go(site string, f func()) {
 	k := K
 	if k == nil {
@@ -371,6 +457,8 @@ func Go(site string, f func()) {
 }
 
 // GoHarness starts a harness actor (not counted as a library goroutine).
+//
+//go:norace
 func GoHarness(site string, f func()) *Actor {
 	k := K
 	if k == nil || k.dying {
@@ -379,6 +467,7 @@ func GoHarness(site string, f func()) *Actor {
 	return k.spawn(site, false, f)
 }
 
+//go:norace
 func (k *Kernel) spawn(site string, lib bool, f func()) *Actor {
 	a := k.newActor(site, lib, k.cur.ID)
 	k.startActor(a, f)
@@ -387,6 +476,8 @@ func (k *Kernel) spawn(site string, lib bool, f func()) *Actor {
 }
 
 // Yield is a plain scheduling point.
+//
+//go:norace
 func Yield(kind Kind, key uintptr) {
 	k := K
 	if k == nil {
@@ -401,6 +492,7 @@ func Yield(kind Kind, key uintptr) {
 	k.yield(kind, key)
 }
 
+//go:norace
 func (k *Kernel) yield(kind Kind, key uintptr) {
 	me := k.cur
 	me.kind = kind
@@ -409,6 +501,8 @@ func (k *Kernel) yield(kind Kind, key uintptr) {
 }
 
 // Block parks the current actor until one of keys is notified. The caller retries its operation afterwards.
+//
+//go:norace
 func (k *Kernel) Block(kind Kind, keys ...uintptr) {
 	if k.dying {
 		runtime.Goexit()
@@ -434,6 +528,8 @@ func (k *Kernel) Block(kind Kind, keys ...uintptr) {
 const keySpin = ^uintptr(0)
 
 // Gosched models a spin-wait iteration: the actor is disabled until another actor has taken a step.
+//
+//go:norace
 func (k *Kernel) Gosched() {
 	if k.dying {
 		runtime.Goexit()
@@ -449,6 +545,8 @@ func (k *Kernel) Gosched() {
 }
 
 // Notify re-enables the actors blocked on key.
+//
+//go:norace
 func (k *Kernel) Notify(key uintptr) {
 	for _, a := range k.actors {
 		if a.st == stBlocked {
@@ -463,6 +561,8 @@ func (k *Kernel) Notify(key uintptr) {
 }
 
 // NotifyAll re-enables every blocked actor (they retry and re-block if nothing changed).
+//
+//go:norace
 func (k *Kernel) NotifyAll() {
 	for _, a := range k.actors {
 		if a.st == stBlocked {
@@ -471,6 +571,7 @@ func (k *Kernel) NotifyAll() {
 	}
 }
 
+//go:norace
 func (k *Kernel) wakeSpinners(except *Actor) {
 	if k.spin == 0 {
 		return
@@ -489,6 +590,8 @@ func (k *Kernel) wakeSpinners(except *Actor) {
 }
 
 // resched is the heart: called by the current actor at a scheduling point.
+//
+//go:norace
 func (k *Kernel) resched() {
 	me := k.cur
 	me.Steps++
@@ -508,17 +611,18 @@ func (k *Kernel) resched() {
 	k.cur = next
 	if next != nil {
 		k.Stats.Switches++
-		next.wake <- struct{}{}
+		next.unpark()
 	}
 	if me.st == stDone {
 		return
 	}
-	<-me.wake
+	me.park()
 	if me.die {
 		runtime.Goexit()
 	}
 }
 
+//go:norace
 func (k *Kernel) pick(me *Actor) *Actor {
 	if k.capped {
 		// the run is over: hand control to the driver and let it finish
@@ -602,11 +706,13 @@ func (k *Kernel) pick(me *Actor) *Actor {
 	}
 }
 
+//go:norace
 func (k *Kernel) timerDue(limit time.Duration) bool {
 	e := k.peekEvent()
 	return e != nil && e.at <= limit
 }
 
+//go:norace
 func (k *Kernel) peekEvent() *event {
 	var best *event
 	for _, e := range k.events {
@@ -621,6 +727,8 @@ func (k *Kernel) peekEvent() *event {
 }
 
 // advance moves the clock to the earliest event and fires exactly one event.
+//
+//go:norace
 func (k *Kernel) advance(stall bool) {
 	// compact
 	live := k.events[:0]
@@ -684,6 +792,8 @@ func (k *Kernel) advance(stall bool) {
 }
 
 // AddEvent schedules fire at now+d.
+//
+//go:norace
 func (k *Kernel) addEvent(d time.Duration, period time.Duration, kind evKind, site string, fire func(k *Kernel)) *event {
 	if d < 0 {
 		d = 0
@@ -695,6 +805,8 @@ func (k *Kernel) addEvent(d time.Duration, period time.Duration, kind evKind, si
 }
 
 // PendingTimers reports the number of live timer events and the earliest instant.
+//
+//go:norace
 func (k *Kernel) PendingTimers() (int, time.Duration) {
 	n := 0
 	var at time.Duration = -1
@@ -711,6 +823,8 @@ func (k *Kernel) PendingTimers() (int, time.Duration) {
 
 // Settle lets everybody else run until nothing is enabled; the clock may advance up to `until`
 // (absolute simulated time; pass k.Now() for "without advancing the clock"). Only the driver calls it.
+//
+//go:norace
 func (k *Kernel) Settle(until time.Duration) {
 	if k.cur != k.driver {
 		panic("simrt: Settle from a non-driver actor")
@@ -726,6 +840,13 @@ func (k *Kernel) Settle(until time.Duration) {
 		k.logStep(me, KSettle, 0)
 		k.resched()
 		k.limit = k.now
+		if RaceMode {
+			// like a WaitGroup.Wait in the scenario's main goroutine: what the actors did so far
+			// happens-before what the driver does next (one direction only, driver side only)
+			for _, a := range k.actors {
+				atomic.LoadUint32(&a.rel)
+			}
+		}
 		if k.capped {
 			return
 		}
@@ -750,6 +871,7 @@ func (k *Kernel) Settle(until time.Duration) {
 	}
 }
 
+//go:norace
 func (k *Kernel) anyRunnable() bool {
 	for _, a := range k.actors {
 		if a != k.cur && a.st == stRunnable {
@@ -760,6 +882,8 @@ func (k *Kernel) anyRunnable() bool {
 }
 
 // Sleep parks the current actor for d of simulated time.
+//
+//go:norace
 func (k *Kernel) Sleep(d time.Duration) {
 	if k.dying {
 		runtime.Goexit()
@@ -781,12 +905,16 @@ func (k *Kernel) Sleep(d time.Duration) {
 }
 
 // Fatal records a condition that would have killed a real process (e.g. unlock of unlocked mutex).
+//
+//go:norace
 func (k *Kernel) Fatal(msg string) {
 	k.Fatals = append(k.Fatals, msg)
 	k.Log("fatal " + msg)
 }
 
 // Survivors lists actors that have not finished, with what they are waiting for.
+//
+//go:norace
 func (k *Kernel) Survivors() []string {
 	var out []string
 	for _, a := range k.actors {
@@ -798,6 +926,8 @@ func (k *Kernel) Survivors() []string {
 }
 
 // Describe renders the actor table.
+//
+//go:norace
 func (k *Kernel) Describe() string {
 	var sb strings.Builder
 	for _, a := range k.actors {
@@ -807,6 +937,8 @@ func (k *Kernel) Describe() string {
 }
 
 // Permute returns a permutation of [0,n) decided by the strategy (a recorded decision per position).
+//
+//go:norace
 func (k *Kernel) Permute(n int) []int {
 	p := make([]int, n)
 	for i := range p {
